@@ -121,8 +121,52 @@ fn judge(rep: &mut Rep, s: &str, class: &str, deep: bool) -> Option<NormalizedSt
 
 const FILL: &[u8; 16] = b"aB3 xY~!zQ0_mN-k";
 
+/// Values built before any other use of the type in this process (on a thread of their own); values with the same text
+/// built later, after arbitrary accepted and rejected inputs on other threads, must be indistinguishable from them.
+fn reference_texts() -> Vec<String> {
+    let mut v: Vec<String> = Vec::new();
+    for n in [1usize, 2, 3, 5, 7, 8, 9, 15, 16] {
+        v.push((0..n).map(|i| FILL[(i * 3 + n) % 16] as char).collect());
+        v.push((0..n).map(|i| (b'a' + ((i * 7 + n) % 26) as u8) as char).collect());
+    }
+    v
+}
+
+fn compare_with_references(rep: &mut Rep, refs: &[(String, NormalizedString)], class: &str) {
+    for (text, r) in refs {
+        rep.ev(1);
+        match guard(|| NormalizedString::new(text)) {
+            Ok(Ok(n)) => {
+                let same = n == *r && *r == n && n.cmp(r) == std::cmp::Ordering::Equal && hash_of(&n) == hash_of(r) && n.as_ref() == r.as_ref();
+                if !same {
+                    rep.violation(
+                        &format!("c13:value_depends_on_history:{}", class),
+                        format!(
+                            "NormalizedString::new({:?}) built after other inputs on this thread differs from the value built first: eq {} cmp {:?} hash equal {} text equal {}",
+                            text, n == *r, n.cmp(r), hash_of(&n) == hash_of(r), n.as_ref() == r.as_ref()
+                        ),
+                        format!("str {}", hex(text.as_bytes())),
+                    );
+                    return;
+                }
+            }
+            other => {
+                rep.violation(&format!("c13:valid_rejected:{}", class), format!("valid string {:?} not accepted later in the process: {:?}", text, other.map(|x| x.is_ok())), format!("str {}", hex(text.as_bytes())));
+                return;
+            }
+        }
+    }
+    rep.count("comparisons_with_first_built_values", refs.len() as u64);
+}
+
 pub fn run(tier: &str, seed: u64) -> Rep {
     let mut total = Rep::new();
+    let refs: Vec<(String, NormalizedString)> = std::thread::spawn(|| {
+        reference_texts().into_iter().filter_map(|t| NormalizedString::new(&t).ok().map(|n| (t, n))).collect()
+    })
+    .join()
+    .unwrap_or_default();
+    let refs_ref = &refs;
     total.rule = "NormalizedString constructors against the rule written from the statement (len 0 or >16 bytes -> length error; else first \
 char outside 0x20..0x7E -> that char; else Ok with a..z upper-cased): every Unicode scalar value at every position of an otherwise valid \
 string, all strings over {1,2,3,4-byte char} up to 20 bytes, all 95^2 two-char strings, lengths 0..64, random pairs for Eq/Ord/Hash. \
@@ -164,8 +208,11 @@ distinct = distinct input strings (each is one input of the quantifier)"
                 }
             }
             cp += step;
+            if cp % 0x800 == 0 {
+                compare_with_references(&mut rep, refs_ref, "worker_thread");
+            }
         }
-        rep.count("scalars_x_positions", 0);
+        compare_with_references(&mut rep, refs_ref, "worker_thread");
         rep
     });
     total.merge(r);
@@ -292,6 +339,20 @@ distinct = distinct input strings (each is one input of the quantifier)"
             }
         }
     }
+    // a valid string and, right after it, the same string with trailing NUL / control / blank characters
+    for n in 1..=15usize {
+        let base: String = (0..n).map(|i| FILL[(i * 5 + n) % 16] as char).collect();
+        for tail in ["\0", "\0\0", "\u{1}", " ", "\u{7f}", "\u{a0}"] {
+            judge(&mut rep, &base, "valid_then_suffix", false);
+            let mut t = base.clone();
+            t.push_str(tail);
+            judge(&mut rep, &t, "valid_then_suffix", false);
+            let mut t2 = String::from(tail);
+            t2.push_str(&base);
+            judge(&mut rep, &t2, "valid_then_suffix", false);
+            rep.distinct_extra += 2;
+        }
+    }
     // lengths 0..64 of plain ASCII
     for n in (0..=64usize).step_by(if tier == "miri" { 8 } else { 1 }) {
         let s: String = (0..n).map(|i| FILL[i % 16] as char).collect();
@@ -338,6 +399,7 @@ distinct = distinct input strings (each is one input of the quantifier)"
         }
         rep.cell(&[a.len() as u64, b.len() as u64, (ta == tb) as u64]);
     }
+    compare_with_references(&mut rep, refs_ref, "main_thread_end");
     rep.sample(format!("new({:?}) -> {:?}", "aB3 \u{e9}", conv(NormalizedString::new("aB3 \u{e9}")).0));
     total.merge(rep);
     total
